@@ -7,6 +7,7 @@ import RV.C14.RefineEquiv
 import RV.C14.RefineStable
 import RV.C14.RefineStable2
 import RV.C14.RefineWitness
+import RV.C14.TracesEquiv
 /-
   C14 — property statements and theorems.
 
@@ -346,6 +347,63 @@ theorem canon_complete_partial : Statement_canon_complete_partial :=
 example : refineDiscrete sumHash termHash [(b 1, p, b 2), (b 2, p, b 3)] = true := by decide +kernel
 example : canonRefine sumHash termHash [(b 7, p, b 5), (b 5, p, b 9)] =
     canonRefine sumHash termHash [(b 1, p, b 2), (b 2, p, b 3)] := by decide +kernel
+
+/-! ## The individualisation search `_traces` (RV/C14/Traces.lean: `candidates`, `individuate`, `experimentalPath`,
+    `isAutomorphism`, `createGenerator`, `tracesStep`, `traces`, `leafKey`, `finalColoring`, `canonTraces`) -/
+
+/-- the whole search is EQUIVARIANT under blank-node renaming: for an injective `σ` (no blank predicates), ARBITRARY hash
+    functions `H`, `HT` and any colouring `cs`,
+    (i) the automorphism test gives the same answer on the renamed data;
+    (ii) the loop over the candidates of `_traces` run on `σ g` from `σ cs` ends in the σ-image of the state it ends in on
+         `g` from `cs` — the kept branches `best` (the leaves explored at this level), their experimental paths, the
+         generator and the visited set are the σ-images, the best score is the same;
+    (iii) `_traces` returns the σ-image of the leaf it returns on `g` after the same number of calls;
+    (iv) so does the whole of `canonical_triples` up to the final colouring (`finalColoring`).
+    No hypothesis on the hashes is needed: every score, colour hash and leaf key is computed from label-free data
+    (items, term codes, hashes), so it is σ-invariant by construction; what IS needed is that the two runs visit
+    candidates, nodes and triples in corresponding order — the statement is about `g.rename σ` with the same list
+    orders, not about Python's label-dependent set iteration. -/
+def Statement_traces_rename_equivariant : Prop :=
+  ∀ (H : List Item → Nat) (HT : Term → Nat) (σ : Nat → Nat) (g : Graph), Function.Injective σ → NoBlankPred g →
+    (∀ cs a b : List Color,
+      isAutomorphism (g.rename σ) (cs.map (mapColor (Term.rename σ))) (a.map (mapColor (Term.rename σ)))
+        (b.map (mapColor (Term.rename σ))) = isAutomorphism g cs a b) ∧
+    (∀ (efuel : Nat) (cs : List Color),
+      (candidates (cs.map (mapColor (Term.rename σ)))).foldl
+          (tracesStep H HT (g.rename σ) efuel (cs.map (mapColor (Term.rename σ)))) TState.init =
+        mapState σ ((candidates cs).foldl (tracesStep H HT g efuel cs) TState.init)) ∧
+    (∀ (efuel fuel : Nat) (cs : List Color),
+      traces H HT (g.rename σ) efuel fuel (cs.map (mapColor (Term.rename σ))) =
+        ((traces H HT g efuel fuel cs).1.map (mapColor (Term.rename σ)), (traces H HT g efuel fuel cs).2)) ∧
+    finalColoring H HT (g.rename σ) =
+      ((finalColoring H HT g).1.map (mapColor (Term.rename σ)), (finalColoring H HT g).2)
+
+/-- `canon_complete` for rdflib's own canonicaliser INCLUDING the search, PARTIAL: whenever the final colouring labels
+    every blank node of `g` (it is a discrete leaf — what `_traces` returns), the canonical triples do not depend on the
+    blank-node labels: `canonical_triples(σ g) = canonical_triples(g)` as lists, for every injective `σ`.
+    Exact hypothesis that remains: `h = g.rename σ` with the same triple / node orders (see above). -/
+def Statement_canon_complete_traces_partial : Prop :=
+  ∀ (H : List Item → Nat) (HT : Term → Nat) (σ : Nat → Nat) (g : Graph), Function.Injective σ → NoBlankPred g →
+    (∀ a ∈ bnodes g, ∃ c ∈ (finalColoring H HT g).1, ∃ rest, c.nodes = ⟨true, a⟩ :: rest) →
+    canonTraces H HT (g.rename σ) = canonTraces H HT g
+
+theorem traces_rename_equivariant : Statement_traces_rename_equivariant := by
+  intro H HT σ g hσ hp
+  refine ⟨fun cs a b => isAutomorphism_map hσ hp cs a b, fun efuel cs => ?_,
+    fun efuel fuel cs => traces_map hσ hp H HT efuel fuel cs, finalColoring_map hσ hp H HT⟩
+  rw [candidates_map]
+  exact foldl_tracesStep_map hσ hp H HT efuel cs (candidates cs) TState.init
+
+theorem canon_complete_traces_partial : Statement_canon_complete_traces_partial :=
+  fun H HT _ _ hσ hp hcov => canonTraces_rename hσ hp H HT (fun a ha => keys_canonLabels (hcov a ha))
+
+/-- non-vacuity: the directed 3-cycle needs the search (one call of `_traces`, a discrete leaf), and a relabelled copy
+    gets literally the same canonical triples -/
+example : (finalColoring sumHash termHash [(b 1, p, b 2), (b 2, p, b 3), (b 3, p, b 1)]).2 = 1 := by decide +kernel
+example : allDiscrete (finalColoring sumHash termHash [(b 1, p, b 2), (b 2, p, b 3), (b 3, p, b 1)]).1 = true := by
+  decide +kernel
+example : canonTraces sumHash termHash [(b 11, p, b 12), (b 12, p, b 13), (b 13, p, b 11)] =
+    canonTraces sumHash termHash [(b 1, p, b 2), (b 2, p, b 3), (b 3, p, b 1)] := by decide +kernel
 
 /-! ## The exhaustive individualisation–refinement search `canonSearch` (RV/C14/Search.lean)
 
